@@ -285,8 +285,13 @@ class QintImp(int, Qtype):
     @classmethod
     def sub(cls, tleft: TExp, tright: TExp) -> TExp:
         """Subtract two Qint"""
-        an = cls.bitwise_not(cls.fill(tleft))
-        su = cls.add(an, cls.fill(tright))
+        if len(tleft[1]) < len(tright[1]):
+            tleft = tright[0].fill(tleft)  # type: ignore
+        elif len(tleft[1]) > len(tright[1]):
+            tright = tleft[0].fill(tright)  # type: ignore
+
+        an = cls.bitwise_not(tleft)
+        su = cls.add(an, tright)
         return cls.bitwise_not(su)
 
     @classmethod
